@@ -35,6 +35,16 @@ Theorem C09_no_torn_reads : forall n sched a,
 Proof. exact no_torn_reads. Qed.
 Print Assumptions C09_no_torn_reads.
 
+(* no lost writes: whatever the schedule before and after, an element holds what the last accepted write covering it stored, as
+   long as no later request writes that element - writes of other sessions to OTHER elements of the same tag cannot undo it
+   (a write stores exactly its own range; there is no read-modify-write of its neighbours) *)
+Theorem C09_last_write_wins : forall before sid s vs after a i d,
+  (s + length vs <= length a)%nat -> (s <= i < s + length vs)%nat ->
+  Forall (fun so => covers (snd so) i = false) after ->
+  nth i (fst (arun a (before ++ (sid, AWrite s vs) :: after))) d = nth (i - s) vs d.
+Proof. exact last_write_wins. Qed.
+Print Assumptions C09_last_write_wins.
+
 Example C09_nonvacuous :
   (* thread 1 registers two closures, thread 2 one; thread 2 leaves the parser while thread 1's first closure runs *)
   snd (run_evs 10 [Reg 1 1001 [Exit 2]; Reg 2 2001 []; Reg 1 1002 []; Exit 1] []) = [(1, 1001); (2, 2001); (1, 1002)] /\
